@@ -81,7 +81,10 @@ func (r *validationResponseHandler) HandleValidationResponse(
 		// RFC 9111 §4.3.3 Handling Validation Responses (304 Not Modified)
 		// RFC 9111 §4.3.4 Freshening Stored Responses upon Validation
 		updateStoredHeaders(ctx.Stored.Data, resp)
-		if r.rs != nil {
+		// Nothing of this exchange is written to the store when the request or the 304 itself says
+		// no-store (RFC 9111 §5.2.1.5, §5.2.2.5); the stored response stays as it was.
+		mayStore := !ctx.CCReq.NoStore() && !ParseCCResponseDirectives(resp.Header).NoStore()
+		if r.rs != nil && mayStore {
 			// Write the freshened response back: updated header fields, unchanged body, and
 			// request/response times of the validation exchange so that its age restarts.
 			_ = r.rs.StoreResponse(
